@@ -31,6 +31,19 @@ PROPERTIES = {
         assumptions=COMMON_ASSUMPTIONS,
         probes_expected=["oracle.c07", "run.canceled", "quiesce.vacuous"],
     ),
+    "C08": dict(
+        quick_runs=200_000, thorough_runs=8_000_000, level="exploration",
+        oracle="Oracle (W-boxcar, every atomic operation of the vector is a scheduling point; history of invoke/return "
+               "events stamped with the simulator's global event number): at quiescence every successfully pushed value "
+               "occurs exactly once, at the index push returned; the published prefix of a batch is contiguous and "
+               "ascending; every other index below count() is a hole accounted for by the fault plan (lying iterator, "
+               "panicking fill) and reads None; count() == reserved indices. Real time: get(i) invoked after push->i "
+               "returned is Some with that value and columns == f(value); Some is stable; never Some for an unassigned "
+               "index; both snapshot iterators yield each index of [start,end) exactly once with complete items only; "
+               "count() is non-decreasing and >= pushes completed before it was invoked.",
+        assumptions=COMMON_ASSUMPTIONS + ["indices above MAX_ENTRIES (where Location::of panics by design) are not generated"],
+        probes_expected=["oracle.c08", "boxcar.cas_lost"],
+    ),
     "C09": dict(
         quick_runs=120_000, thorough_runs=4_000_000, level="exploration",
         oracle="Oracle: vector-clock happens-before monitor over the orderings declared at each atomic call site "
@@ -70,6 +83,20 @@ PROPERTIES = {
                "are visible through Injector::get.",
         assumptions=COMMON_ASSUMPTIONS,
         probes_expected=["eventloop.wait", "oracle.c13.notify_visibility", "tick.lock_failed"],
+    ),
+    "C18": dict(
+        quick_runs=60_000, thorough_runs=2_000_000, level="exploration",
+        oracle="Oracle (W-sort: par_quicksort through the cfg-gated facade on a simulated pool of N threads, optional "
+               "canceller thread whose single store is placed by the scheduler): the slice is a permutation of its input "
+               "(unique uids: exact multiset equality); returned false => no adjacent inversion under is_less; flag never "
+               "raised => returned false. Inputs: lengths around the insertion-sort / pivot / sequential thresholds and "
+               "above 2*MAX_SEQUENTIAL, families random/sorted/reversed/organ-pipe/saw-tooth/equal/few-distinct/"
+               "near-sorted/killer/plateaus and McIlroy's adversarial comparator (probes show heapsort, break_patterns, "
+               "partial insertion sort and partition_equal were entered). The thread-count clause is decided by C07's "
+               "oracle, whose reference order is thread-free.",
+        assumptions=COMMON_ASSUMPTIONS + ["comparisons are not scheduling points (the comparator is harness code)"],
+        probes_expected=["sort.heapsort", "sort.break_patterns", "sort.partial_insertion", "sort.partition_equal",
+                         "sort.canceled_at_fork", "join.stolen"],
     ),
     "C19": dict(
         quick_runs=160_000, thorough_runs=6_000_000, level="exploration",
